@@ -144,15 +144,36 @@ func cmdCheck(args []string) {
 		}
 	}
 	all = append(all, w.lemmaObligations(func(l *Lemma) bool { return hasProp(l.Props, prop) })...)
-	if prop == "C09" {
-		// zero-annotation frame sweep over every function of the library (sweep.go)
-		n, fs := w.sweep()
+	{
+		// zero-annotation frame sweep (sweep.go): for C09 over every function of the library, for the other properties over
+		// the functions in the files the property is anchored in and in lib/utils (the seeded generator lives there)
+		n, fsAll := w.sweep()
+		var fs []sweepFinding
+		if prop == "C09" {
+			fs = fsAll
+		} else {
+			files := anchoredFiles(filepath.Join(verifRoot, "properties.jsonl"), prop)
+			n = 0
+			for _, f := range fsAll {
+				file := f.Pos
+				if i := strings.Index(file, ".go:"); i >= 0 {
+					file = file[:i+3]
+				}
+				rel := strings.TrimPrefix(file, "/repo/")
+				if files[rel] || strings.HasPrefix(rel, "lib/utils/") {
+					fs = append(fs, f)
+				}
+			}
+			for range files {
+				n++
+			}
+		}
 		bad := map[string][]sweepFinding{}
 		for _, f := range fs {
 			bad[f.Func] = append(bad[f.Func], f)
 		}
 		all = append(all, &Obligation{Name: "sweep#frame.no_shared_state.all_functions", Func: "sweep", Kind: "sweep", Props: []string{prop},
-			Src: fmt.Sprintf("%d functions of /repo/lib scanned for writes to package-level variables, ambient state and concurrency primitives", n),
+			Src: fmt.Sprintf("sweep for writes to package-level variables, ambient state (clock, process-wide random source, environment, files) and concurrency primitives; scope size %d", n),
 			Goal: TTrue, Result: "unsat", Solver: "syntactic"})
 		for fn, ff := range bad {
 			var ws []string
@@ -449,4 +470,28 @@ func cmdReplayFile(prop, path string) int {
 	}
 	fmt.Println("the recorded behaviour is not reproduced on the current tree")
 	return 0
+}
+
+
+// anchoredFiles: the files a property names in anchors.files.
+func anchoredFiles(path, prop string) map[string]bool {
+	out := map[string]bool{}
+	data, err := os.ReadFile(path)
+	if err != nil {
+		return out
+	}
+	for _, line := range strings.Split(string(data), "\n") {
+		var p struct {
+			ID      string `json:"id"`
+			Anchors struct {
+				Files []string `json:"files"`
+			} `json:"anchors"`
+		}
+		if json.Unmarshal([]byte(line), &p) == nil && p.ID == prop {
+			for _, f := range p.Anchors.Files {
+				out[f] = true
+			}
+		}
+	}
+	return out
 }
